@@ -392,4 +392,92 @@ theorem catmullSurplusOk_of_check (m : Beatmap Float Float32)
 
 end Float64
 
+/-! ### non-vacuity and witnesses (closed files decoded by the kernel; `Trig Float32` of Model/Cmds/Curve.lean)
+
+The Catmull instances (about 20 s of kernel arithmetic each) are in Props/C01IeeeWitness.lean. -/
+
+section Examples
+
+/-- a linear slider in an osu! map. -/
+def fileLinear : List UInt8 := asciiBytes "osu file format v14\n\n[HitObjects]\n0,0,0,2,0,L|100:0,1,100\n"
+
+/-- `[HitObjects]` first, `Mode: 2` afterwards. -/
+def fileModeAfter : List UInt8 := asciiBytes "[HitObjects]\n0,0,0,2,0,L|100:0,1\n[General]\nMode: 2\n"
+
+/-- a taiko map with a slider whose stored length is below the path's. -/
+def fileTaiko : List UInt8 := asciiBytes "[General]\nMode: 1\n[HitObjects]\n0,0,0,2,0,B|30:40|60:0,2,7.5\n"
+
+/-- a catch map (mode line first) with a perfect-curve slider and no length field. -/
+def fileCatch : List UInt8 := asciiBytes "[General]\nMode: 2\n[HitObjects]\n10,20,0,2,0,L|13:24|13:30,1\n"
+
+/-- the decoded map's mode and the path modes of its sliders. -/
+def modesOf (m : Beatmap Float Float32) : GameMode × List GameMode := (m.general.mode, (sliderPaths m).map (·.mode))
+
+/-- **the path mode of a decoded slider need not be the map's mode**: a slider line parsed before `Mode: 2` keeps the
+default osu! path mode inside a catch map (decode.rs builds the `SliderPath` with `state.timing_points.mode()` at that
+moment). So osu!-mode Catmull simplification — and a possibly negative `optimized_len` — also occurs in catch maps,
+where the encoder does build the slider-event iterator. -/
+theorem decoded_mode_mismatch_witness : (decodeMap fileModeAfter).map modesOf = some (GameMode.catch, [GameMode.osu]) := by
+  decide +kernel
+
+/-- all hypotheses of `encode_decoded_no_panic_float_no_catmull` (and of `decoded_dist_nonneg_float_non_catmull`) on a
+decoded file, and its conclusion. -/
+example : ∃ m, decodeMap fileLinear = some m ∧ (sliderPaths m).length = 1 ∧ DistOk m.hitObjects ∧
+    encode m ≠ .error .panic := by
+  have hchk : (decodeMap fileLinear).map (fun m => ((sliderPaths m).length, (sliderPaths m).all pathPlainB)) =
+      some (1, true) := by decide +kernel
+  cases hm : decodeMap fileLinear with
+  | none => rw [hm] at hchk; cases hchk
+  | some m =>
+    rw [hm] at hchk
+    simp only [Option.map_some, Option.some.injEq, Prod.mk.injEq] at hchk
+    obtain ⟨st, h1, h2⟩ := decodeMap_spec _ m hm
+    have hno : ∀ h ∈ m.hitObjects, ∀ s, h.kind = .slider s →
+        s.path.mode ≠ GameMode.osu ∨ NoCatmull s.path.controlPoints :=
+      fun x hx s hk => pathPlainB_spec _ ((List.all_eq_true.mp hchk.2) s.path (mem_sliderPaths m x hx s hk))
+    exact ⟨m, rfl, hchk.1, decoded_dist_nonneg_float_partial _ st m h1 h2 (catmullSurplusOk_of_none m hno),
+      encode_decoded_no_panic_float_no_catmull _ st m h1 h2 hno⟩
+
+/-- the mode-mismatch file is covered as well (its osu!-mode path is linear). -/
+example : ∃ m, decodeMap fileModeAfter = some m ∧ encode m ≠ .error .panic := by
+  have hchk : (decodeMap fileModeAfter).map (fun m => (sliderPaths m).all pathPlainB) = some true := by decide +kernel
+  cases hm : decodeMap fileModeAfter with
+  | none => rw [hm] at hchk; cases hchk
+  | some m =>
+    rw [hm] at hchk
+    simp only [Option.map_some, Option.some.injEq] at hchk
+    obtain ⟨st, h1, h2⟩ := decodeMap_spec _ m hm
+    exact ⟨m, rfl, encode_decoded_no_panic_float_no_catmull _ st m h1 h2
+      (fun x hx s hk => pathPlainB_spec _ ((List.all_eq_true.mp hchk) s.path (mem_sliderPaths m x hx s hk)))⟩
+
+/-- hypotheses of `encode_decoded_no_panic_float_taiko_mania` / `encode_no_panic_taiko_mania`. -/
+example : ∃ m, decodeMap fileTaiko = some m ∧ (sliderPaths m).length = 1 ∧ encode m ≠ .error .panic := by
+  have hchk : (decodeMap fileTaiko).map (fun m => (decide (m.general.mode = GameMode.taiko), (sliderPaths m).length)) =
+      some (true, 1) := by decide +kernel
+  cases hm : decodeMap fileTaiko with
+  | none => rw [hm] at hchk; cases hchk
+  | some m =>
+    rw [hm] at hchk
+    simp only [Option.map_some, Option.some.injEq, Prod.mk.injEq, decide_eq_true_eq] at hchk
+    obtain ⟨st, h1, h2⟩ := decodeMap_spec _ m hm
+    exact ⟨m, rfl, hchk.2, encode_decoded_no_panic_float_taiko_mania _ st m h1 h2 (Or.inl hchk.1)⟩
+
+/-- hypotheses of `encode_decoded_no_panic_float_modes`: a catch map whose slider path carries the catch mode. -/
+example : ∃ m, decodeMap fileCatch = some m ∧ UsesSliderEvents m.general.mode ∧ encode m ≠ .error .panic := by
+  have hchk : (decodeMap fileCatch).map modesOf = some (GameMode.catch, [GameMode.catch]) := by decide +kernel
+  cases hm : decodeMap fileCatch with
+  | none => rw [hm] at hchk; cases hchk
+  | some m =>
+    rw [hm] at hchk
+    simp only [Option.map_some, Option.some.injEq, modesOf, Prod.mk.injEq] at hchk
+    obtain ⟨st, h1, h2⟩ := decodeMap_spec _ m hm
+    refine ⟨m, rfl, Or.inr hchk.1, encode_decoded_no_panic_float_modes _ st m h1 h2 (by rw [hchk.1]; decide) ?_⟩
+    intro x hx s hk
+    have hmem : s.path.mode ∈ (sliderPaths m).map (·.mode) := List.mem_map.mpr ⟨s.path, mem_sliderPaths m x hx s hk, rfl⟩
+    rw [hchk.2] at hmem
+    rw [hchk.1]
+    simpa using hmem
+
+end Examples
+
 end Rosu.C01
